@@ -15,16 +15,25 @@ def run_part(ctx):
         "tied to the code by the correspondence check only (return values and reflected internal fields after every operation)",
         "math/rand is an oracle: the harness re-seeds the global source and predicts rand.Intn / rand.Perm, the theorems quantify over every "
         "index below the size and every permutation",
-        "mutexes are not modelled (sequential histories); the thread-safe stack additionally gets a concurrent push smoke test",
+        "mutexes are not modelled (sequential histories); atomicity of the methods is tied to the code only by the Go-side forced-interleaving "
+        "family (harness/cmd/c12a/conc.go: calls queued behind a writer parked in a harness-supplied callback or behind the held mutex, judged by "
+        "'some sequential order explains all results') and the thread-safe stack's concurrent push smoke test",
     ])
     if thorough:
         for k in range(5):
             ctx.seed += 1000
-            ctx.corr(hx, ["hist", "--n", "720", "--len", "40"], cases_name="c12a_cases%d.v" % k)
+            ctx.corr(hx, ["hist", "--n", "720", "--len", "40", "--conc", "600"], cases_name="c12a_cases%d.v" % k)
         ctx.seed -= 5000
     else:
         ctx.corr(hx, ["hist", "--n", "600", "--len", "30"], cases_name="c12a_cases.v")
     ctx.assumptions += [
+        "c12a: the C12 theorems quantify over SEQUENTIAL operation histories; that every method of the thread-safe containers is atomic (so that "
+        "concurrent use is some sequential history) is not proved: it is tied to the code by the forced-interleaving family only (GetOrCreate / Compute / "
+        "Delete-with-condition of ShrinkingMap parked inside their callbacks, all containers behind their held mutex; 2-4 queued calls; oracle: a sequential "
+        "order of the calls explains every result, callback count and the final contents)",
+        "c12a: timed.PriorityQueue priorities are abstract instants; the harness renders every key and PopUntil bound in a randomly chosen time.Time "
+        "representation of its instant (with/without monotonic reading, Local/UTC/fixed zones, rebuilt from Unix nanoseconds); the ds queue's keys carry a "
+        "tag its comparator ignores (equal but not identical keys)",
         "c12a: the float32 shrinking ratio is modelled as an exact rational (exact for the small counters and dyadic/short ratios used; float rounding near 2^24 deletions is outside the model)",
         "c12a: heap ordering theorems (heap invariant, Pop/Peek = minimum, PopAll sorted) assume the user comparator is a strict weak order (CompareTo<0 asymmetric, negatively transitive); PopUntil-exact additionally assumes the three-way contract a>b iff b<a; both discharged for the ascending, descending and tie-heavy comparators used (index/contents/handle theorems hold for any comparator)",
         "c12a: Queue/RingBuffer refinement is guarded by capacity >= 1 (capacity 0 panics in ForceOffer/Add: modelled and checked as a panic outcome); negative capacities panic in make()",
